@@ -795,6 +795,17 @@ class Canon:
             sel = _aliases(node)
             if not sel:
                 break
+            # a name whose value is pure only because it mentions another selected name that stands for something with an effect: writing both out would write the effect
+            # once per use of the outer name - the inner one goes first, the outer one is looked at again in the next round
+            uses = {}
+            for x in ast.walk(node):
+                if isinstance(x, ast.Name) and isinstance(x.ctx, ast.Load):
+                    uses[x.id] = uses.get(x.id, 0) + 1
+            for k in list(sel):
+                if uses.get(k, 0) > 1 and any(isinstance(x, ast.Name) and x.id in sel and x.id != k and not _is_pure(sel[x.id]) for x in ast.walk(sel[k])):
+                    del sel[k]
+            if not sel:
+                break
             # values may mention other selected names: resolve them first
             for _i in range(len(sel) + 1):
                 changed = False
@@ -1686,6 +1697,11 @@ class _Small(ast.NodeTransformer):
                     t_ = _SubstAll({p_.arg: a for p_, a in zip(la.args, n.args)})
                     t_._top = n
                     return self.visit(t_.visit(copy.deepcopy(n.func.body)))
+        # tuple(E(v) for v in (a, b)) -> (E(a), E(b))     list(...) likewise
+        if isinstance(n.func, ast.Name) and n.func.id in ("tuple", "list") and len(n.args) == 1 and not n.keywords and isinstance(n.args[0], (ast.GeneratorExp, ast.List)):
+            elts = self._expanded(n.args[0]) if isinstance(n.args[0], ast.GeneratorExp) else list(n.args[0].elts)
+            if elts is not None:
+                return ast.copy_location((ast.Tuple if n.func.id == "tuple" else ast.List)(elts=elts, ctx=ast.Load()), n)
         # f(**dict(a=x)) / f(**{'a': x}) -> f(a=x)
         if any(k.arg is None for k in n.keywords):
             kws = []
@@ -1704,6 +1720,28 @@ class _Small(ast.NodeTransformer):
                     args.append(a)
             n.args = args
         return n
+
+    @staticmethod
+    def _expanded(comp):
+        """`E(v) for v in (a, b, c)` (a literal of at most four simple elements, no filter) as the list of E(a), E(b), E(c); None if it is not of that shape"""
+        if len(comp.generators) != 1:
+            return None
+        g = comp.generators[0]
+        if g.ifs or g.is_async or not isinstance(g.iter, (ast.Tuple, ast.List)) or not (1 <= len(g.iter.elts) <= 4) or not isinstance(g.target, ast.Name):
+            return None
+        if not all(isinstance(e, (ast.Constant, ast.Name)) or (_is_pure(e, reads_ok=True) and not any(isinstance(x, (ast.Call, ast.Lambda, ast.Starred)) for x in ast.walk(e))) for e in g.iter.elts):
+            return None
+        out = []
+        for e in g.iter.elts:
+            t_ = _SubstAll({g.target.id: e})
+            t_._top = comp
+            out.append(t_.visit(copy.deepcopy(comp.elt)))
+        return out
+
+    def visit_ListComp(self, n):
+        self.generic_visit(n)
+        elts = self._expanded(n)
+        return ast.copy_location(ast.List(elts=elts, ctx=ast.Load()), n) if elts is not None else n
 
     def visit_Subscript(self, n):
         self.generic_visit(n)
